@@ -149,6 +149,18 @@ func c04Corrupt(r *sim.Run, x []byte, flat []*ref.Box) string {
 		binary.BigEndian.PutUint32(b[:], v)
 		copy(x[off:], b[:])
 	}
+	if len(flat) > 0 && t.Chance(60) {
+		// a box header whose type field names another known box (a header written over the wrong one): the container
+		// and file-assembly code then meets a well-formed box where it does not expect that type
+		b := flat[t.Draw(len(flat))]
+		types := []string{"free", "skip", "mdat", "moof", "moov", "styp", "ftyp", "sidx", "traf", "trun", "tfhd", "trak", "mfra", "emsg", "senc", "stsd", "mvex", "uuid"}
+		nt := types[t.Draw(len(types))]
+		if int(b.Start)+8 <= len(x) {
+			copy(x[b.Start+4:], nt)
+			r.Fault("stored-type-rewritten")
+			return fmt.Sprintf("type=%s@%d(was %s)", nt, b.Start, b.Type)
+		}
+	}
 	switch t.Draw(9) {
 	case 0:
 		x[off] ^= 1 << uint(t.Draw(8))
@@ -464,7 +476,7 @@ func init() {
 		Setup:       c04Setup,
 		Run:         c04Run,
 		FatalIsViol: true,
-		WantFaults:  []string{"unit-dropped", "unit-duplicated", "unit-reordered", "unit-moved", "unit-spliced", "unit-table-shrunk", "unit-largesize-header", "sizes-left-unrepaired", "stored-bitflip", "stored-u32=ffffffff", "stored-zeroed-range", "stored-misdirected-range", "stored-largesize-huge", "disk-truncated", "read-eio", "seek-eio", "read-short", "read-zero"},
+		WantFaults:  []string{"unit-dropped", "unit-duplicated", "unit-reordered", "unit-moved", "unit-spliced", "unit-table-shrunk", "unit-largesize-header", "sizes-left-unrepaired", "stored-bitflip", "stored-u32=ffffffff", "stored-zeroed-range", "stored-misdirected-range", "stored-largesize-huge", "stored-type-rewritten", "disk-truncated", "read-eio", "seek-eio", "read-short", "read-zero"},
 		WantProbes:  []string{"decode-accepted-faulty-input", "decode-rejected", "single-box-accepted"},
 	})
 }
